@@ -8,9 +8,15 @@
     c19_targets  [order (csv); classes_at_last_level (0/1); t_1; ...],
                  t = "T" RS s RS p RS o RS (i|l)   a p-o triple of subject s (object an IRI / not)
                    | "K" RS s RS c                 a class triple of s
-                 -> the yielded triples, one field each: s RS p RS o *)
+                 -> the yielded triples, one field each: s RS p RS o
+    c19_integrate [n0; e_1; e_2; ...], e = ("R" | "N") RS instance RS class_1 RS ... RS class_k : the entries of
+                 the reference dictionary (R) and of the second tracker's dictionary (N), each in insertion
+                 order; n0 = value of the global disambiguation counter
+                 -> MixedInstanceTracker._integrate_dicts: the entries of the merged dictionary IN ORDER, one
+                    field each (instance RS class_1 RS ...), then the counter *)
 From Coq Require Import List Ascii String ZArith NArith Bool.
 From Shexer Require Import Lib.PyStr Lib.Dict Gen.Consts Model.Table Model.Determinism Model.EntryC18.
+From Shexer Require Model.Selectors.
 Import ListNotations.
 
 Definition csv (s : str) : list str := match s with [] => [] | _ => split (Str ",") s end.
@@ -63,8 +69,16 @@ Definition c19_targets_row (r : list str) : list str :=
   map (fun t : tr3 => let '(s, p, o, _) := t in s ++ RS ++ p ++ RS ++ o)
       (yield_triples tr3 po obj_iri cls last order).
 
+Definition c19_integrate_row (r : list str) : list str :=
+  let recs := map (split RS) (skipn 1 r) in
+  let pick (tag : str) : dict (list str) :=
+      flat_map (fun f => if str_eqb (nth 0 f []) tag then [(nth 1 f [], skipn 2 f)] else []) recs in
+  let '(d, n) := Selectors.integrate_dicts (pick (Str "R")) (pick (Str "N")) (N_of_dec (fld r 0)) in
+  map (fun e : str * list str => join RS (fst e :: snd e)) d ++ [dec_of_N n].
+
 Definition entry_c19 (name : str) (t : table) : option table :=
   if str_eqb name (Str "c19_prefix") then Some (map c19_prefix_row t)
   else if str_eqb name (Str "c19_remove") then Some (map c19_remove_row t)
   else if str_eqb name (Str "c19_targets") then Some (map c19_targets_row t)
+  else if str_eqb name (Str "c19_integrate") then Some (map c19_integrate_row t)
   else None.
